@@ -951,5 +951,5 @@ MANIFEST = {
              "compared with the image tools' construction; (e) for every protocol version the response signs credential || beacon || [device UUID from the challenge] || challenge and "
              "exports the same prefix plus that signature. Round-trip equality of values and cryptographic validity are not executed.",
     "note": "Trusted: struct semantics, signature providers (C08), AHAB/SRK internals for the ELE variants (C06). Frozen tokens: canonical field names of the credential constructor.",
-    "technique": "static analysis: AST field-sequence and concatenation-sequence extraction with MRO resolution, symbolic struct-format itemisation, constant folding of size/hash tables over the finite key-size domain",
+    "technique": "static analysis: AST field-sequence and concatenation-sequence extraction with MRO resolution, symbolic struct-format itemisation, constant folding of size/hash tables over the finite key-size domain, finite-model evaluation of RotMetaFlags, guarded paths",
 }
